@@ -132,6 +132,25 @@ mod verif_c09 {
         }
     }
 
+    // C12: with an ARBITRARY reorder map (not necessarily a permutation: set_reorder is public and plans can be hand-made)
+    // the paired borrow must refuse physical indices that coincide or lie outside the slab - never build the raw slices
+    #[kani::proof]
+    #[kani::unwind(@UNWIND@)]
+    #[kani::should_panic]
+    fn c12_slab_pair_bad_map_panics() {
+        let data: [u8; COUNT * T] = kani::any();
+        let mut slab = SymbolSlab { data: data.to_vec(), count: COUNT, symbol_size: T, mapping: None };
+        let map: [usize; COUNT] = kani::any();
+        slab.set_reorder(map.to_vec());
+        let d: usize = kani::any();
+        let s: usize = kani::any();
+        kani::assume(d < COUNT && s < COUNT && d != s);
+        kani::assume(map[d] == map[s] || map[d] >= COUNT || map[s] >= COUNT);
+        let (dm, sr) = slab.get_pair_mut(d, s);
+        // reaching this point means no panic: touch the slices so that an out-of-bounds range is also a pointer-check failure
+        let _ = dm[0] ^ sr[0];
+    }
+
     // (ii) perform_op changes only the dest symbol and applies the field operation byte-wise
     #[kani::proof]
     #[kani::unwind(@UNWIND@)]
